@@ -359,7 +359,12 @@ private:
     bool declaration();
     /** Parse optional label. */
     bool label(bool required = false, const std::string& kind = "");
-    int invariant();
+    /** A label of a location whose text is parsed once all labels have been read. */
+    struct pending_label_t
+    {
+        std::string text, path;
+    };
+    void invariant(std::vector<pending_label_t>& invariants, std::vector<pending_label_t>& rates);
     /** Parse optional committed tag. */
     bool committed();
     /** Parse optional urgent tag. */
@@ -606,32 +611,27 @@ bool XMLReader::label(bool required, const std::string& s_kind)
     return false;
 }
 
-int XMLReader::invariant()
+void XMLReader::invariant(std::vector<pending_label_t>& invariants, std::vector<pending_label_t>& rates)
 {
-    int result = -1;
     if (begin(tag_t::LABEL)) {
         /* Get kind attribute. */
         char* kind = getAttribute("kind");
         if (kind == nullptr)
             throw TypeException{"A label must have a \"kind\" attribute"};
         read();
-        /* Read the text and push it to the parser. */
+        /* Remember the text together with the path of its element: the
+         * builder expects the invariant before the rate, whatever the
+         * order of the two labels in the file is. */
         if (getNodeType() == XML_READER_TYPE_TEXT) {
             const xmlChar* text = xmlTextReaderConstValue(reader.get());
             auto kind_sv = std::string_view{kind};
-            // This is a terrible mess but it's too badly designed
-            // to fix at this moment.
-            if (kind_sv == "invariant") {
-                if (parse(text, S_INVARIANT) == 0)
-                    result = 0;
-            } else if (kind_sv == "exponentialrate") {
-                if (parse(text, S_EXPONENTIAL_RATE) == 0)
-                    result = 1;
-            }
+            if (kind_sv == "invariant")
+                invariants.push_back({(const char*)text, path.str()});
+            else if (kind_sv == "exponentialrate")
+                rates.push_back({(const char*)text, path.str()});
         }
         xmlFree(kind);
     }
-    return result;
 }
 
 std::string XMLReader::name(bool instanceLine)
@@ -746,12 +746,14 @@ bool XMLReader::location()
                 throw TypeException{"Every location must have a unique id attribute value"};
             /* Get name of the location. */
             std::string l_name = name();
-            /* Read the invariant. */
-            while (begin(tag_t::LABEL)) {
-                int res = invariant();
-                l_invariant |= res == 0;
-                l_exponentialRate |= res == 1;
-            }
+            /* Read the invariant and the rate. */
+            std::vector<pending_label_t> invariants, rates;
+            while (begin(tag_t::LABEL))
+                invariant(invariants, rates);
+            for (const auto& l : invariants)
+                l_invariant |= parse_XTA(l.text.c_str(), parser, newxta, S_INVARIANT, l.path) == 0;
+            for (const auto& l : rates)
+                l_exponentialRate |= parse_XTA(l.text.c_str(), parser, newxta, S_EXPONENTIAL_RATE, l.path) == 0;
             /* Is the location urgent or committed? */
             bool l_urgent = urgent();
             bool l_committed = committed();
